@@ -123,6 +123,9 @@ pub enum Inject {
 }
 
 pub const VARIANT_REBUILD: u8 = 255;
+/// the failing state was expanded right after its transposed twin (the last three branch actions are
+/// o1, o2, x: the twin is o2, o1, x)
+pub const VARIANT_TWIN: u8 = 254;
 
 pub enum Source<'a> {
     Ops(&'a [(u16, u8)]),
@@ -411,6 +414,66 @@ impl<'o> Expander<'o> {
         } else {
             st.bump("tree_nodes_fully_expanded");
         }
+        // ---- transposition probe (roots only): two orders of the same two steps reach the same board;
+        // a client (search with a transposition table) expands such twins back to back. Whatever the
+        // engine shares between states must not leak from one path into the other.
+        if is_root && mo.step == 0 && self.nodes <= self.opts.max_nodes {
+            let quiet: Vec<Action> = children.iter().copied().filter(|a| !mo.ends_turn(to_maction(a)) && legal.contains(&to_maction(a))).collect();
+            let mut pairs = 0;
+            'outer: for i in 0..quiet.len() {
+                for j in (i + 1)..quiet.len() {
+                    if pairs >= 8 {
+                        break 'outer;
+                    }
+                    let (ai, aj) = (quiet[i], quiet[j]);
+                    // both orders on the model
+                    let mut ma = mo.clone();
+                    let mut mb = mo.clone();
+                    if ma.apply(to_maction(&ai)).is_err() || !ma.offered_norep().contains(&to_maction(&aj)) || ma.apply(to_maction(&aj)).is_err() {
+                        continue;
+                    }
+                    if mb.apply(to_maction(&aj)).is_err() || !mb.offered_norep().contains(&to_maction(&ai)) || mb.apply(to_maction(&ai)).is_err() {
+                        continue;
+                    }
+                    if ma.board != mb.board || ma.step != 2 || mb.step != 2 {
+                        continue;
+                    }
+                    let built = guard(|| (eng.take_action(&ai).take_action(&aj), eng.take_action(&aj).take_action(&ai)));
+                    let (ea, eb) = match built {
+                        Ok(x) => x,
+                        Err(_) => continue,
+                    };
+                    // a common further step, applied to both twins back to back
+                    let xs: Vec<MAction> = ma.offered_norep().intersection(&mb.offered_norep()).copied().filter(|x| !ma.ends_turn(*x)).collect();
+                    let x = match xs.first() {
+                        Some(x) => *x,
+                        None => continue,
+                    };
+                    let xa = to_action(x);
+                    let kids = guard(|| (ea.take_action(&xa), eb.take_action(&xa)));
+                    let (ca, cb) = match kids {
+                        Ok(k) => k,
+                        Err(_) => continue,
+                    };
+                    let mut mca = ma.clone();
+                    let mut mcb = mb.clone();
+                    if mca.apply(x).is_err() || mcb.apply(x).is_err() {
+                        continue;
+                    }
+                    pairs += 1;
+                    st.bump("transposed_twins_expanded_back_to_back");
+                    for (e, mm, order) in [(&cb, &mcb, [aj, ai]), (&ca, &mca, [ai, aj])] {
+                        let v2 = View::new(e, mm, true);
+                        self.obs.on_state(&v2, st).map_err(|f| {
+                            let mut p = path.clone();
+                            p.extend_from_slice(&order);
+                            p.push(xa);
+                            (Fail::new(&f.clause, format!("(state expanded right after its transposed twin) {}", f.detail)), p)
+                        })?;
+                    }
+                }
+            }
+        }
         for i in chosen {
             let a = children[i];
             let ma = to_maction(&a);
@@ -670,6 +733,9 @@ pub fn walk(
                         t.branch = p;
                         if f.detail.starts_with("(on this state rebuilt") {
                             t.fork = Some(VARIANT_REBUILD);
+                        }
+                        if f.detail.starts_with("(state expanded right after its transposed twin)") {
+                            t.fork = Some(VARIANT_TWIN);
                         }
                         return Err(WalkFail { fail: f, trace: t, inconclusive: false });
                     }
